@@ -181,31 +181,36 @@ def noteAp (st : DSt) (cond : Bool) (v : Nat) : DSt :=
 def noteBr (st : DSt) (cond : Bool) (e : Nat × Nat) : DSt :=
   if cond then { st with br := st.br ++ [e] } else st
 
+/-- entering `dfs(v)`: `discovery[v] = low[v] = time; time += 1` -/
+def dfsEnter (st : DSt) (v : Nat) : DSt :=
+  { st with iters := st.iters + 1, disc := aset st.disc v st.time,
+            low := aset st.low v st.time, time := st.time + 1 }
+
+/-- one neighbour `w` in the `for w in adj[v]` loop of `dfs(v)` (`rec` = the recursive call,
+`acc.2` = `children`) -/
+def dfsStep (rec : Nat → DSt → DSt) (v : Nat) (acc : DSt × Nat) (w : Nat) : DSt × Nat :=
+  let st := acc.1
+  let children := acc.2
+  if !hasKey st.disc w then
+    let st := { st with parent := aset st.parent w (some v) }
+    let st := rec w st
+    let lw := aget st.low w 0
+    let st := { st with low := aset st.low v (min (aget st.low v 0) lw) }
+    let dv := aget st.disc v 0
+    -- root: two or more DFS children; non-root: low[w] >= discovery[v]
+    let isAp := match aget st.parent v none with
+      | none => decide (children + 1 ≥ 2)
+      | some _ => decide (lw ≥ dv)
+    let st := noteAp st isAp v
+    let st := noteBr st (decide (lw > dv)) (if v < w then (v, w) else (w, v))
+    (st, children + 1)
+  else if aget st.parent v none != some w then
+    ({ st with low := aset st.low v (min (aget st.low v 0) (aget st.disc w 0)) }, children)
+  else acc
+
 def dfs (adj : Nat → List Nat) : Nat → Nat → DSt → DSt
   | 0, _, st => st
-  | fuel+1, v, st =>
-    let st := { st with iters := st.iters + 1, disc := aset st.disc v st.time,
-                        low := aset st.low v st.time, time := st.time + 1 }
-    let r := (adj v).foldl (fun (acc : DSt × Nat) w =>
-      let st := acc.1
-      let children := acc.2
-      if !hasKey st.disc w then
-        let st := { st with parent := aset st.parent w (some v) }
-        let st := dfs adj fuel w st
-        let lw := aget st.low w 0
-        let st := { st with low := aset st.low v (min (aget st.low v 0) lw) }
-        let dv := aget st.disc v 0
-        -- root: two or more DFS children; non-root: low[w] >= discovery[v]
-        let isAp := match aget st.parent v none with
-          | none => decide (children + 1 ≥ 2)
-          | some _ => decide (lw ≥ dv)
-        let st := noteAp st isAp v
-        let st := noteBr st (decide (lw > dv)) (if v < w then (v, w) else (w, v))
-        (st, children + 1)
-      else if aget st.parent v none != some w then
-        ({ st with low := aset st.low v (min (aget st.low v 0) (aget st.disc w 0)) }, children)
-      else acc) (st, 0)
-    r.1
+  | fuel+1, v, st => ((adj v).foldl (dfsStep (dfs adj fuel) v) (dfsEnter st v, 0)).1
 
 /-- the outer `for v in node_list: if v not in discovery` loop; returns (cut vertices, bridges) -/
 def lowlink (G : Graph) : List Nat × List (Nat × Nat) :=
